@@ -864,3 +864,73 @@ func TrySend(v, x reflect.Value) bool {
 	v.Send(x)
 	return true
 }
+
+// OnceFunc, OnceValue and OnceValues replace the sync helpers of the same names: the first caller runs f at a
+// scheduling point, every caller returns after it ran.
+func OnceFunc(f func()) func() {
+	o := new(Once)
+	return func() { o.Do(f) }
+}
+
+func OnceValue[T any](f func() T) func() T {
+	o := new(Once)
+	var v T
+	return func() T {
+		o.Do(func() { v = f() })
+		return v
+	}
+}
+
+func OnceValues[T1, T2 any](f func() (T1, T2)) func() (T1, T2) {
+	o := new(Once)
+	var v1 T1
+	var v2 T2
+	return func() (T1, T2) {
+		o.Do(func() { v1, v2 = f() })
+		return v1, v2
+	}
+}
+
+// Map replaces sync.Map: every operation is a scheduling point and then executes atomically (one thread runs at a
+// time under the scheduler; without it the real sync.Map does the work).
+type Map struct {
+	real sync.Map
+}
+
+func (m *Map) Load(key any) (any, bool) { Point("syncmap-load"); return m.real.Load(key) }
+func (m *Map) Store(key, value any)     { Point("syncmap-store"); m.real.Store(key, value) }
+func (m *Map) Delete(key any)           { Point("syncmap-delete"); m.real.Delete(key) }
+func (m *Map) Clear() {
+	Point("syncmap-clear")
+	m.real.Range(func(k, _ any) bool { m.real.Delete(k); return true })
+}
+func (m *Map) LoadOrStore(key, value any) (any, bool) {
+	Point("syncmap-loadorstore")
+	return m.real.LoadOrStore(key, value)
+}
+func (m *Map) LoadAndDelete(key any) (any, bool) {
+	Point("syncmap-loadanddelete")
+	return m.real.LoadAndDelete(key)
+}
+func (m *Map) Swap(key, value any) (any, bool) { Point("syncmap-swap"); return m.real.Swap(key, value) }
+func (m *Map) CompareAndSwap(key, old, new any) bool {
+	Point("syncmap-cas")
+	return m.real.CompareAndSwap(key, old, new)
+}
+func (m *Map) CompareAndDelete(key, old any) bool {
+	Point("syncmap-cad")
+	return m.real.CompareAndDelete(key, old)
+}
+
+// Range visits a copy of the entries taken at one scheduling point; f runs outside of it and may block.
+func (m *Map) Range(f func(key, value any) bool) {
+	Point("syncmap-range")
+	type kv struct{ k, v any }
+	var all []kv
+	m.real.Range(func(k, v any) bool { all = append(all, kv{k, v}); return true })
+	for _, e := range all {
+		if !f(e.k, e.v) {
+			return
+		}
+	}
+}
